@@ -87,8 +87,11 @@ def creation(t):
         a_np = [like] + args
     else:
         a_mg = a_np = args
+    for k2 in ("shape",):
+        if isinstance(kw.get(k2), list):
+            kw[k2] = tuple(kw[k2])
     try:
-        r = getattr(mg, fn)(*a_mg, **kw)
+        r = getattr(np if t.get("via_numpy") else mg, fn)(*a_mg, **kw)      # via_numpy: numpy.<fn>(tensor, ...) dispatches to mygrad's override
     except Exception as e:
         r, me = None, exn_class(e)
     else:
